@@ -722,6 +722,7 @@ peg::parser! {
             !brace_expr() !stop_condition() "{" {}
 
         // Parses a complete brace expression, with no prefix or suffix.
+        #[cache]
         pub(crate) rule brace_expr() -> BraceExpression =
             "{" inner:brace_expr_inner() "}" { inner }
 
